@@ -118,52 +118,70 @@ def run(tier):
         vd.observe("model:decision table disagrees with the documented rule", {"descriptors": bad[:5]})
     vd.cov["states"] = len(descs); vd.cov["transitions"] = len(descs)
     use = descs if tier == "thorough" else rng.sample(descs, min(700, len(descs)))
+    # a twin of the file: the same layout (the same DIE offsets) with every encoding swapped for its
+    # counterpart of the other signedness.  Both are read in one process, the twin second: what was learnt
+    # about a type DIE of one file must not be applied to the DIE at the same offset of the other.
+    SWAP = {"signed": "unsigned", "unsigned": "signed", "signed_char": "unsigned_char", "unsigned_char": "signed_char"}
+    def dkey(d):
+        return json.dumps(d, sort_keys=True)
+    bykey = {dkey(x["d"]): x for x in descs}
+    use2 = []
+    for x in use:
+        d2 = dict(x["d"]); d2["enc"] = SWAP.get(d2["enc"], d2["enc"])
+        use2.append(bykey.get(dkey(d2), x))
     forest, holder = build_desc_forest(use)
+    forest2, holder2 = build_desc_forest(use2)
     o, offs, _ = dwarfgen.build(forest, wd, "c07")
+    ot, offst, _ = dwarfgen.build(forest2, wd, "c07twin")
     b = D.Built(o, offs)
+    bt = D.Built(ot, offst)
+    if [b.off[holder[k]] for k in range(len(use))] != [bt.off[holder2[k]] for k in range(len(use2))]:
+        raise common.ToolError("C07: the twin file does not have the layout of the first")
     # one query per DIE: an error on an uninterpreted combination must not hide the others
-    jobs = [(o, "entry (offset == %d) [offset, [@AT_const_value], [attribute ?AT_const_value value]]" % b.off[holder[k]], False)
-            for k in range(len(use))]
-    recs = D.run_queries(drv, jobs, wd, "c07")
-    got = {}
-    failed = {}
-    for k, rec in enumerate(recs):
-        if rec and rec.get("status") == "ok" and len(rec["results"]) == 1:
-            got[holder[k]] = rec["results"][0][-1]["v"]
-        else:
-            failed[holder[k]] = rec
+    q = "entry (offset == %d) [offset, [@AT_const_value], [attribute ?AT_const_value value]]"
+    jobs = [(o, q % b.off[holder[k]], False) for k in range(len(use))] \
+         + [(ot, q % bt.off[holder2[k]], False) for k in range(len(use2))]
+    allrecs = D.run_queries(drv, jobs, wd, "c07")
     nontriv = 0
-    for k, x in enumerate(use):
-        d = x["d"]
-        vd.cov["evaluations"] += 1
-        g = got.get(holder[k])
-        key = "const_value form=%s holder=%s type=%s enc=%s enumerators=%s value=%s" % (d["form"], d["holder"], d["ty"], d["enc"], d["enrs"], d["vc"])
-        if g is None:
-            # an error or a diagnostic instead of a value: fine where the documented rule does not decide
-            if x["documented"] != "any":
-                vd.observe(key + ": no value (%s)" % (failed.get(holder[k]) or {}).get("err", "?"), {"observed": failed.get(holder[k])})
-            continue
-        vals, vals2 = g[1]["v"], g[2]["v"]
-        if json.dumps(vals, sort_keys=True) != json.dumps(vals2, sort_keys=True):
-            vd.observe(key + ": @AT_const_value differs from attribute value", {"a": vals, "b": vals2})
-        w = 64 if d["form"] in ("sdata", "udata") else WIDTH[d["form"]]
-        doc = x["documented"]
-        if doc == "any":
-            # not determined by the documented rule: any integral reading of the bits, a block, or nothing with a diagnostic
-            if vals and vals[0]["t"] == "cst":
-                if int(vals[0]["v"]) not in (expect_value("signed", d["vc"], w), expect_value("unsigned", d["vc"], w)):
-                    vd.observe(key + ": value is not a reading of the stored bits", {"observed": vals})
-            continue
-        if len(vals) != 1 or vals[0]["t"] != "cst":
-            vd.observe(key + ": expected one constant", {"observed": vals}); continue
-        v0 = vals[0]
-        want = expect_value(doc if doc in ("signed",) else "unsigned", d["vc"], w)
-        dom_ok = {"signed": v0["dom"] == "dec", "unsigned": v0["dom"] == "dec", "bool": v0["dom"] == "bool",
-                  "address": v0["dom"] not in ("dec", "bool")}[doc]
-        if int(v0["v"]) != want or not dom_ok:
-            vd.observe(key + ": decoded as %s (%s), expected %s %d" % (v0["v"], v0["dom"], doc, want), {"observed": v0})
-        else:
-            nontriv += 1
+    for use, holder, recs, ftag in ((use, holder, allrecs[:len(use)], ""), (use2, holder2, allrecs[len(use):], "twin file read second: ")):
+        got = {}
+        failed = {}
+        for k, rec in enumerate(recs):
+            if rec and rec.get("status") == "ok" and len(rec["results"]) == 1:
+                got[holder[k]] = rec["results"][0][-1]["v"]
+            else:
+                failed[holder[k]] = rec
+        for k, x in enumerate(use):
+            d = x["d"]
+            vd.cov["evaluations"] += 1
+            g = got.get(holder[k])
+            key = ftag + "const_value form=%s holder=%s type=%s enc=%s enumerators=%s value=%s" % (d["form"], d["holder"], d["ty"], d["enc"], d["enrs"], d["vc"])
+            if g is None:
+                # an error or a diagnostic instead of a value: fine where the documented rule does not decide
+                if x["documented"] != "any":
+                    vd.observe(key + ": no value (%s)" % (failed.get(holder[k]) or {}).get("err", "?"), {"observed": failed.get(holder[k])})
+                continue
+            vals, vals2 = g[1]["v"], g[2]["v"]
+            if json.dumps(vals, sort_keys=True) != json.dumps(vals2, sort_keys=True):
+                vd.observe(key + ": @AT_const_value differs from attribute value", {"a": vals, "b": vals2})
+            w = 64 if d["form"] in ("sdata", "udata") else WIDTH[d["form"]]
+            doc = x["documented"]
+            if doc == "any":
+                # not determined by the documented rule: any integral reading of the bits, a block, or nothing with a diagnostic
+                if vals and vals[0]["t"] == "cst":
+                    if int(vals[0]["v"]) not in (expect_value("signed", d["vc"], w), expect_value("unsigned", d["vc"], w)):
+                        vd.observe(key + ": value is not a reading of the stored bits", {"observed": vals})
+                continue
+            if len(vals) != 1 or vals[0]["t"] != "cst":
+                vd.observe(key + ": expected one constant", {"observed": vals}); continue
+            v0 = vals[0]
+            want = expect_value(doc if doc in ("signed",) else "unsigned", d["vc"], w)
+            dom_ok = {"signed": v0["dom"] == "dec", "unsigned": v0["dom"] == "dec", "bool": v0["dom"] == "bool",
+                      "address": v0["dom"] not in ("dec", "bool")}[doc]
+            if int(v0["v"]) != want or not dom_ok:
+                vd.observe(key + ": decoded as %s (%s), expected %s %d" % (v0["v"], v0["dom"], doc, want), {"observed": v0})
+            else:
+                nontriv += 1
     # other attribute classes: strings, references, flags, addresses, enumerated attributes, location
     kids = []
     specs = [("string", 3, "string", b"a\xffb", ("str", b"a\xffb")), ("flag1", 0x3f, "flag", 1, ("cst", 1, "bool")),
